@@ -173,3 +173,57 @@ def _const_like(ctx, x, module):
 
     v = ctx.folder.eval(x, module)
     return v is not UNKNOWN
+
+
+def possibly_unbound_in_handlers(ctx, fn):
+    """[(name node, handler)] - locals read inside an `except` handler that are not bound on every path into that handler.
+    The try body can fail before (or inside) the statement that first binds the name; reading it in the handler then raises
+    UnboundLocalError out of the handler instead of the exception the handler was meant to produce."""
+    g = ctx.cfg(fn)
+    params = {a.arg for a in fn.args.args + fn.args.kwonlyargs + getattr(fn.args, "posonlyargs", [])}
+    if fn.args.vararg:
+        params.add(fn.args.vararg.arg)
+    if fn.args.kwarg:
+        params.add(fn.args.kwarg.arg)
+    bound_nodes = {}
+    for n in g.nodes:
+        if n.ast is None:
+            continue
+        targets = []
+        if n.kind == "stmt" and isinstance(n.ast, (ast.Assign, ast.AugAssign, ast.AnnAssign)):
+            tg = n.ast.targets if isinstance(n.ast, ast.Assign) else [n.ast.target]
+            for t in tg:
+                targets += [x.id for x in walk(t) if isinstance(x, ast.Name)]
+        elif n.kind in ("stmt", "test") and isinstance(n.ast, (ast.For,)):
+            targets += [x.id for x in walk(n.ast.target) if isinstance(x, ast.Name)]
+        elif n.kind == "stmt" and isinstance(n.ast, ast.With):
+            for it in n.ast.items:
+                if it.optional_vars is not None:
+                    targets += [x.id for x in walk(it.optional_vars) if isinstance(x, ast.Name)]
+        elif n.kind == "handler" and isinstance(n.ast, ast.ExceptHandler) and n.ast.name:
+            targets.append(n.ast.name)
+        for t in targets:
+            bound_nodes.setdefault(t, set()).add(n)
+    # for-loop targets: the node carrying the For statement may be a test node keyed by the iter expression
+    for st in walk(fn):
+        if isinstance(st, ast.For):
+            for x in walk(st.target):
+                if isinstance(x, ast.Name):
+                    for n in g.nodes_of(st) + g.nodes_of(st.iter):
+                        bound_nodes.setdefault(x.id, set()).add(n)
+    locals_ = set(bound_nodes) - params
+    out = []
+    for hn in g.nodes:
+        if hn.kind != "handler" or not isinstance(hn.ast, ast.ExceptHandler):
+            continue
+        h = hn.ast
+        for x in [y for s_ in h.body for y in walk(s_)]:
+            if not (isinstance(x, ast.Name) and isinstance(x.ctx, ast.Load) and x.id in locals_ and x.id != h.name):
+                continue
+            binders = bound_nodes[x.id]
+            # is the handler reachable along a path on which no binder completed?  (leaving a binder through its
+            # exceptional edge means the binding did not happen)
+            wit = g.must_pass(set(), sinks={hn}, avoid_edges=lambda a, b, lab, _b=binders: a in _b and lab != "exc")
+            if wit is not None:
+                out.append((x, h))
+    return out
